@@ -144,7 +144,7 @@ def _remove_ens(c):
 
 
 REG.contract('HotBuffer.remove', params={'observation': 'Observation'}, ensures=_remove_ens, result='bool',
-             modifies=['self.current_capacity', 'self.observations.finished', 'self.observations.scheduled'], props=['C07', 'C04'])
+             modifies=['self.current_capacity', 'self.observations.finished', 'self.observations.scheduled'], props=['C07', 'C04', 'C12'])
 
 REG.contract('HotBuffer.has_stored_observations',
              ensures=lambda c: [('exact', c.result.t == (c.o.self.observations['stored'].n > 0))], result='bool', props=['C04'])
@@ -342,7 +342,7 @@ REG.contract('Buffer.ingest_data_stream', world=BW, params={'observation': 'Obse
                      'ValueError': dict(when=lambda c: c.o.observation.ingest_data_rate.t > hot(c.o.self).max_ingest_data_rate.t, unchanged=False, exact=False)},
              modifies=['self.events', 'ghost:unlogged_buffer', 'self.hot.0.current_capacity', 'self.hot.0.observations.stored', 'self.waiting_observation_list',
                        'self.stored_times', 'heap:Observation.total_data_size'],
-             props=['C07', 'C13'])
+             props=['C07', 'C13', 'C12', 'C04'])
 
 
 # ---- tier moves (C18) ------------------------------------------------------------------------------------------------
